@@ -11,5 +11,5 @@ PROPS = {
         assumptions=["IBC request path (relay.go) not driven: the fee payer there is the relayer/escrow account, same CollectFee code",
                      "handler layer (L1): the transaction is rolled back as a whole on error, exactly like baseapp.runMsgs"],
     ),
-    "C13": dict(parts=["C13A", "C13B"]),
+    "C13": dict(parts=["C13A", "C13B", "C13C"]),
 }
